@@ -25,9 +25,11 @@ from .. import sx
 from ..impl import run_impl, REPO
 from ..model import run_model
 from . import _de
+from . import _c16_gen
 from ._de import fr, qvec, qmat, vec_close, mat_close
 
 ASSUMPTIONS = [
+    _c16_gen.ASSUMPTION,
     'exact-arithmetic model over Qc; implementation floats are converted to exact rationals and compared with '
     'relative tolerance 1e-11 (matrix entries, right-hand sides, hat values) resp. 1e-9 (outputs of the LAPACK solve); for the '
     'non-uniform analytic entries the tolerance is enlarged by 64*eps*max_cells 6(x/h)^3 because the coded off-diagonal formula '
@@ -1222,7 +1224,11 @@ def _check_adaptive(chk, c, res, verbose):
 
 
 def run(chk):
-    chk.coq_obligations()
+    # source-derived model: regenerate coq/Gen/DensityGen.v from the working tree BEFORE the obligations, so that the C16_gen_*
+    # theorems are re-checked against the matrix-entry code and the scalar hats as they are now
+    gen_info = _c16_gen.regenerate(chk)
+    chk.coq_obligations(extra_props=_c16_gen.EXTRA_PROPS)
+    gen_problem = _c16_gen.diagnose(chk, gen_info)
     rng = chk.rng
     q = chk.quick
     chk.extra['excluded_axes'] = EXCLUDED
@@ -1252,6 +1258,7 @@ def run(chk):
             cases.append(dict(step, history=h['steps'][:k + 1]))
             impl.append(steps[k] if st == 'ok' else (st, steps))
     process(chk, cases, impl=impl)
+    _c16_gen.finish(chk, gen_info, gen_problem)
 
 
 def replay(chk, rep):
